@@ -315,9 +315,7 @@ harness! {
         t.insert_weighted(10., 3.);
         {
             let inner = t.inner.borrow();
-            let mut c = 0.; let mut sm = 0.;
-            let mut i = 0;
-            while i < inner.backlog.len() { c += inner.backlog[i].count; sm += inner.backlog[i].sum; i += 1; }
+            let (c, sm, _n) = totals(&inner);
             assert!(c == 5. && sm == 50., "C16 every insert is accounted with its weight and weighted value");
         }
         assert!(t.count() == 5. && t.sum() == 50. && t.mean() == 10., "C16 count/sum/mean after repeated weighted inserts of one value");
@@ -326,6 +324,7 @@ harness! {
 
 // public wrapper: a positive finite weight always reaches the digest (complete, loop-free)
 harness! {
+    #[kani::unwind(4)]
     fn c16_td_insert_weighted_wrapper() {
         let mut t = TDigest::new(K0::new(10.), 5);
         let x: f64 = any();
@@ -333,7 +332,8 @@ harness! {
         assume(x.is_finite() && w.is_finite() && w > 0.);
         t.insert_weighted(x, w);
         let inner = t.inner.borrow();
-        assert!(inner.backlog.len() == 1 && inner.backlog[0].count == w && inner.backlog[0].sum == x * w, "C16 every positive weight is accounted, however small");
+        let (c, sm, n) = totals(&inner);
+        assert!(n == 1 && c == w && sm == x * w, "C16 every positive weight is accounted, however small");
         assert!(inner.min == x && inner.max == x && inner.n_samples == 1, "C16 min()/max() are exactly the inserted value");
         drop(inner);
         assert!(!t.is_empty(), "C16 is_empty is false once a positive weight was inserted");
@@ -358,7 +358,8 @@ harness! {
                 assert!(t.min() == x && t.max() == x, "C16 min()/max() are exactly the inserted value");
                 {
                     let inner = t.inner.borrow();
-                    assert!(inner.backlog.len() == 1 && inner.backlog[0].count == w && inner.backlog[0].sum == x * w && inner.n_samples == 1, "C16 every positive weight is accounted");
+                    let (c, sm, n) = totals(&inner);
+                    assert!(n == 1 && c == w && sm == x * w && inner.n_samples == 1, "C16 every positive weight is accounted");
                 }
                 j += 1;
             }
